@@ -181,6 +181,9 @@ BUILTIN_FNS.update({
 NEEDS_ENV = {"track_and_groundspeed", "get_observer_coords", "haversine"}
 NEEDS_NOW = {"now"}
 
+# long methods emitted as one definition per top-level block
+SPLIT = {"Plane.update_from_mode_s"}
+
 LOG_MACROS = {"debug", "info", "warn", "error", "trace", "println", "print", "eprintln"}
 
 
@@ -1289,8 +1292,63 @@ class FnTr:
         bind = "" if var == "_" else f"let {lname(pat[1])} := {lo} + {var};\n"
         return (f"let {st} := (List.range {count}).foldl (fun st_ {var} =>\n  let {st} := st_;\n  {bind}{b}) {st};\n" + cont(env))
 
+    # ---- whole function, one auxiliary definition per top-level block ---------------------------------
+    def translate_split(self):
+        """long `&mut self` methods: every top-level compound statement becomes its own definition `f.stepN` over the
+        live variables, so that each block can be related to the model separately"""
+        fn = self.fn
+        env, order = {}, []
+        extras = []
+        for n in self.ctx.needs.get(self.ctx.key_of(fn), []):
+            extras.append(("now", "Int") if n == "now" else ("tenv", "TEnv"))
+        for p, t in fn.params:
+            ty = rty(t, fn.impl_of)
+            env[p[1]] = ty
+            order.append(p[1])
+        name = self.ctx.lean_name(fn)
+        aux, lines = [], []
+        stmts = fn.body[1] + ([("expr", fn.body[2])] if fn.body[2] is not None else [])
+        for i, st in enumerate(stmts):
+            e = st[1] if st[0] == "expr" else None
+            if e is not None and e[0] == "macro" and e[1] in LOG_MACROS:
+                continue
+            acc = set()
+            if e is not None and e[0] in ("if", "iflet", "match", "block"):
+                self.assigned(e, acc, env)
+            acc = [v for v in sorted(acc) if v in env or v == "self"]
+            if acc and not self.contains_return(e):
+                stt = self.state_tuple(acc)
+                body = self.branches(e, env, (lambda env2: stt), False)
+                live = [v for v in order if v in env]
+                params = " ".join(f"({n} : {t})" for n, t in extras) + " (self : " + lty(self.self_ty) + ") " + \
+                    " ".join(f"({lname(v)} : {lty(env[v])})" for v in live)
+                rtype = " × ".join(par(lty(self.self_ty if v == "self" else env[v])) for v in acc)
+                aux.append(f"def {name}.step{i} {params} : {rtype} :=\n" + indent(body, 2))
+                args = " ".join([n for n, _ in extras] + ["self"] + [lname(v) for v in live])
+                lines.append(f"let {stt} := {name}.step{i} {args};")
+                continue
+            got = {}
+            def k(env2, got=got):
+                got["env"] = env2
+                return "\0"
+            txt = self.seq([st], None, env, k, None, {})
+            if not txt.endswith("\0"):
+                raise TErr("statement with a continuation in the middle")
+            lines.append(txt[:-1].rstrip("\n"))
+            new_env = got.get("env", env)
+            for v in new_env:
+                if v not in env:
+                    order.append(v)
+            env = new_env
+        params = " ".join(f"({n} : {t})" for n, t in extras) + " (self : " + lty(self.self_ty) + ") " + \
+            " ".join(f"({lname(p[1])} : {lty(rty(t, fn.impl_of))})" for p, t in fn.params)
+        main = f"def {name} {params} : {lty(self.self_ty)} :=\n" + indent("\n".join(lines) + "\nself", 2)
+        return "\n\n".join(aux + [main])
+
     # ---- whole function ---------------------------------------------------------------------------
     def translate(self):
+        if self.ctx.key_of(self.fn) in SPLIT:
+            return self.translate_split()
         fn = self.fn
         env = {}
         params = []
